@@ -646,6 +646,83 @@ fn check_convert(p: &Prepared, src: &str, dst: &str) -> V {
     }
 }
 
+/// async builders against the sync ones: sync-written stream through the async autodetecting
+/// reader, async-written stream through the sync autodetecting reader
+fn check_async(p: &Prepared, code: &str) -> V {
+    use futures::TryStreamExt;
+    let repo = p.spec.repository();
+    let recs: Vec<&dyn sam::alignment::Record> = p.recs.iter().map(|r| r as &dyn sam::alignment::Record).collect();
+    let bytes = match g(&format!("write-{code}"), std::panic::AssertUnwindSafe(|| write_generic(code, &p.header, &recs, repo.clone())))? {
+        Ok(b) => b,
+        Err(e) => return bad(format!("write-{code}-error"), format!("{e}")),
+    };
+    let via_cram = code == "cram";
+    // the sync reader's verdict on the same stream comes first (known classes are tagged there)
+    check_stream(p, code, &bytes, "c", &p.canon, via_cram)?;
+    let expect: Vec<Vec<u8>> = if via_cram { p.canon.iter().map(|l| norm_unmapped_mapq(l)).collect() } else { p.canon.clone() };
+    let got = g(&format!("async-read-{code}"), {
+        let (bytes, repo) = (bytes.clone(), repo.clone());
+        std::panic::AssertUnwindSafe(move || {
+            crate::common::block_on(async move {
+                let mut r = alignment::r#async::io::reader::Builder::default()
+                    .set_reference_sequence_repository(repo)
+                    .build_from_reader(&bytes[..])
+                    .await
+                    .map_err(|e| ("build".to_string(), e))?;
+                let header = r.read_header().await.map_err(|e| ("read_header".to_string(), e))?;
+                let mut lines = Vec::new();
+                let mut rs = Box::pin(r.records(&header));
+                while let Some(rec) = rs.try_next().await.map_err(|e| (format!("record#{}", lines.len()), e))? {
+                    lines.push(canon_line(&header, rec.as_ref()).map_err(|e| ("canon".to_string(), e))?);
+                }
+                Ok::<_, (String, io::Error)>(lines)
+            })
+        })
+    })?;
+    let mut got = match got {
+        Ok(l) => l,
+        Err((stage, e)) => return bad(format!("async-read-{code}-error"), format!("{stage} {} {e}", nv::errkind(&e))),
+    };
+    if via_cram {
+        got = got.iter().map(|l| norm_unmapped_mapq(l)).collect();
+    }
+    if let Some(d) = first_diff(&expect, &got) {
+        return bad(format!("async-read-{code}-differs-from-sync"), d);
+    }
+    // async writer
+    let (f, k) = fmt_of(code);
+    let out = g(&format!("async-write-{code}"), {
+        let repo = repo.clone();
+        std::panic::AssertUnwindSafe(|| {
+            crate::common::block_on(async {
+                let sink = crate::common::AsyncSink::default();
+                let mut w = alignment::r#async::io::writer::Builder::default()
+                    .set_format(f)
+                    .set_compression_method(k)
+                    .set_reference_sequence_repository(repo)
+                    .build_from_writer(sink.clone())
+                    .await?;
+                w.write_header(&p.header).await?;
+                for r in &recs {
+                    w.write_record(&p.header, *r).await?;
+                }
+                w.shutdown(&p.header).await?;
+                drop(w);
+                let b = sink.0.lock().unwrap().clone();
+                Ok::<_, io::Error>(b)
+            })
+        })
+    })?;
+    let out = match out {
+        Ok(b) => b,
+        Err(e) => return bad(format!("async-write-{code}-error"), format!("{} {e}", nv::errkind(&e))),
+    };
+    match check_stream(p, code, &out, "c", &p.canon, via_cram) {
+        Ok(()) => Ok(()),
+        Err((tag, d)) => bad(format!("async-write-{code}-{tag}"), d),
+    }
+}
+
 // ---------------------------------------------------------------------------------------------
 
 pub const RDRS: [&str; 12] = ["c", "b1", "b2", "b3", "b4", "b5", "b8", "b64", "s1", "t1", "s3", "s4"];
@@ -691,6 +768,13 @@ pub fn generate(rng: &mut Rng, tier: &str, w: &mut CaseWriter) {
             }
         }
     }
+    // async builders
+    for code in FMTS {
+        for i in 0..(if thorough { 12 } else { 3 }) {
+            let n = if i == 0 { 0 } else { rng.range(1, 12) };
+            w.push("aas", vec![code.into(), rng.next().to_string(), n.to_string(), (i % 4).to_string()]);
+        }
+    }
     // conversions: every source -> every target
     let reps = if thorough { 12 } else { 2 };
     for src in FMTS {
@@ -714,6 +798,10 @@ pub fn run(c: &Case) -> Obs {
             let p = prepare_spec(spec_of_text(&c.b(1), &c.args[2]))?;
             check_roundtrip(&p, &c.args[0], &c.args[3])
         }
+        "aas" => {
+            let p = prepare(c.u(1), c.u(2) as usize, c.u(3), 0)?;
+            check_async(&p, &c.args[0])
+        }
         "acv" => {
             let p = prepare(c.u(2), c.u(3) as usize, c.u(4), 0)?;
             check_convert(&p, &c.args[0], &c.args[1])
@@ -721,7 +809,7 @@ pub fn run(c: &Case) -> Obs {
         _ => bad("harness-unknown-kind", c.kind.clone()),
     })();
     let nontrivial = match c.kind.as_str() {
-        "art" | "atx" => true,
+        "art" | "atx" | "aas" => true,
         _ => c.u(3) > 0,
     };
     Obs::ok("-", nontrivial).with_verdict(r)
